@@ -38,9 +38,15 @@ here (the first thirty were written before most checks existed, so "missed" coul
 * C03-m6 (DPA column sum taken in the storage dtype) - float16 values whose sums leave float16; C04-m6 (LUT bounds guard drops negative values) - declared negative class values on int8/int16/int32 words; C18-m6 (`frame_1 or frame_2`) - single-point frames given as int, 0 included, for the time-frequency combinations; C19-m6 (eps added to the Pearson denominator) - unit-scale invariance of correlation and bcdc (same signals scaled by 2^-30).
 * C05-m6 (a one-entry round-key memo that keeps a *reference* to the caller's key array) - C05, C06 and C10 now explore every call sequence of depth <= 4 (quick) / 5 (thorough) over {calls, in-place rewrites of the reused block / key arrays} ("the cipher has no memory"); C09-m5 (slice frames resolved once, `slice(None, None, -1)` becomes empty) - every frame spelling of C02 also goes through `TTestContainer`; C11-m5 (template kernel 2 sums classes in the storage dtype) - a float32 pool that fills the 24-bit mantissa, so that any sum taken in float32 breaks bit-identity at float64 precision; C13-m6 (`numpy.allclose` with its absolute default tolerance in the equal-spacing test) - the edge-validation menu is run at unit scales 1e-12 .. 2^40; C17-m6 (DPA `compute()` normalises its accumulator in place) - every other C17 configuration sets a convergence step (C01 reported it as well).
 * C01-m7 (`compute()` memoised and handed out by reference) - the explorer's compute event now scribbles on the returned array ("the result belongs to the caller"); C06-m7 (round-key memo keyed on the key bytes but not on their shape) - consecutive calls giving the same bytes under every pair of legal shapes; C08-m7 (`finally: _final_compute()` in run()) - histories with a refused run() in the middle; C12-m6 (strict bound on the largest table entry) - class values 65535, 65536 and 131071 on 32-bit words.
+* C03-m7 (alternative CPA computed in blocks of 256 words, the remainder block never written) - word counts 257 and 300; C07-m7 (AddRoundKey hypotheses returned as a view of a module-level work buffer) - results handed out by earlier calls are compared again after later calls, in C07 and in the C05/C06/C10 call histories; C14-m7 (template-DPA scores added candidate by candidate, a refusal at a later candidate leaves the first ones updated) - a refused matching run between two accepted ones in C14's explorer (C16 reported it too).
+* C13-m7 (bin scale taken from the first interval instead of the whole range), C18-m7 (`StandardizeOn` stores the statistics of its first batch on the instance) and C19-m7 (`moving_var` clamps variances below 1.5e-8 of the mean square to zero) - strengthened on reading the change, before the first run against it: 256-bin grids whose first edge is off by the accepted rounding-sized tolerance with samples 5e-8 of a width inside their bins; the same preprocess instance applied to three different batches; moving statistics of every signal riding on a DC level of 40000.
 * C15-m3 and C13-m4 first turned into exit 2 (an unguarded call / memory exhaustion in my harness) - now VIOLATIONs.
 
-''' % (n, WAVES, MISSED)
+'''
+import re as _re
+_b = sec[sec.index('led to the strengthening'):]
+MISSED = len(set(_re.findall(r'C\d\d-m\d', _b)))
+sec = sec % (n, WAVES, MISSED)
 s=s[:i]+sec+tab+'\n'
 open('/verif/DESIGN.md','w').write(s)
 print('rows',n)
